@@ -6,6 +6,7 @@ import (
 	"encoding/json"
 	"fmt"
 	"math"
+	"math/big"
 	"reflect"
 	"sort"
 	"strconv"
@@ -178,7 +179,8 @@ func c07Job(t *testing.T, raw json.RawMessage) (any, error) {
 				if known {
 					switch {
 					case op.Action == 0 && (op.Type == 1 || op.Type == 2):
-						wantGrant = min(int64(op.Amt), bal)
+						// (an overdrawn account - a termination debit may take the balance below zero - grants nothing)
+						wantGrant = max(min(int64(op.Amt), bal), 0)
 						wantFUI = int64(op.Amt) > bal
 						nb = bal - wantGrant
 					case op.Action == 0 && op.Type == 3:
@@ -307,9 +309,6 @@ func init() {
 								// stay inside int64 for the exact result
 								if !unknown && b >= 0 && act == 1 && int64(amt) > math.MaxInt64-b {
 									continue
-								}
-								if !unknown && b < 0 && act == 0 && (ty == 1 || ty == 2) {
-									continue // what a reservation from an overdrawn account should grant is not stated by the property
 								}
 								if !unknown && b >= 0 && act == 0 && ty == 3 && int64(amt) > b && int64(amt) > b+31 {
 									continue // termination debits beyond the balance: only small overdrafts (the stored balance turns negative)
@@ -449,6 +448,11 @@ func costClass(s string) string {
 			return "zero"
 		}
 		return "integer"
+	}
+	if b, ok := new(big.Int).SetString(s, 10); ok && b.Sign() > 0 && !strings.ContainsAny(s, "+- ") {
+		// an integer unit cost that neither the Unsigned32 price arithmetic of the server nor the CHF's 32-bit unit cost
+		// can hold: no monetary quota below 2^32 buys a single unit at it
+		return "integer-beyond-32-bits"
 	}
 	if _, err := strconv.ParseFloat(s, 64); err == nil && strings.Contains(s, ".") {
 		return "decimal"
@@ -590,6 +594,9 @@ func c08Job(t *testing.T, raw json.RawMessage) (any, error) {
 								find("debit-price-not-exact/"+cls, what+fmt.Sprintf(": price %d, expected %d x %d = %d", sr.Price, v, applied, exact))
 							}
 						case cd.REQ_SUBTYPE_RESERVE:
+							if cls == "integer-beyond-32-bits" && (sr.AllowedUnits != 0 || sr.Price != 0) {
+								find("reserve-rating-not-exact/"+cls, what+fmt.Sprintf(": allowed units %d price %d, but a quota of %d buys no unit at a unit cost of %s", sr.AllowedUnits, sr.Price, v, cost))
+							}
 							if applied == 0 {
 								break
 							}
